@@ -61,6 +61,11 @@ CommentDeviations ==
 StyleDeviations ==
   {<<"comment_style", "sharp">>, <<"comment_style", "slash">>, <<"align_trailing_comment", TRUE>>, <<"line_width", 20>>,
    <<"sort_declaration_property", TRUE>>}
+\* the options that rewrite or re-break code
+SemPairDeviations ==
+  {<<"should_use_unset", TRUE>>, <<"sort_declaration_property", TRUE>>, <<"sort_declaration", TRUE>>, <<"else_if", TRUE>>,
+   <<"return_statement_parenthesis", FALSE>>, <<"explicit_string_concat", FALSE>>, <<"line_width", 20>>,
+   <<"break_compound_conditions", FALSE>>, <<"indent_case_labels", TRUE>>, <<"always_next_line_else_if", TRUE>>}
 With(c, d) == [c EXCEPT ![d[1]] = d[2]]
 Singles == {With(Default, d) : d \in Deviations}
 Pairs   == {With(With(Default, d1), d2) : d1 \in Deviations, d2 \in Deviations}   \* includes the singles (d1 = d2)
@@ -73,6 +78,9 @@ Cfgs == CASE CfgSet = "default" -> {Default}
           [] CfgSet = "sort"    -> {Default, With(Default, <<"sort_declaration", TRUE>>), With(Default, <<"align_trailing_comment", TRUE>>),
                                     With(With(Default, <<"sort_declaration", TRUE>>), <<"sort_declaration_property", TRUE>>),
                                     With(With(Default, <<"sort_declaration", TRUE>>), <<"comment_style", "slash">>)}
+          [] CfgSet = "sortonly" -> {With(Default, <<"sort_declaration", TRUE>>),
+                                     With(With(Default, <<"sort_declaration", TRUE>>), <<"sort_declaration_property", TRUE>>)}
+          [] CfgSet = "sempairs" -> {Default} \cup {With(With(Default, d1), d2) : d1 \in SemPairDeviations, d2 \in SemPairDeviations}
           [] CfgSet = "pairs"   -> {Default} \cup Pairs
           [] CfgSet = "any"     -> {Default}      \* simulation draws RandomCfg instead
 
@@ -238,6 +246,7 @@ Docs == CASE DocSet = "unit"   -> UnitDocs
           [] DocSet = "multi2" -> MultiDocs(2)
           [] DocSet = "group"  -> GroupDocs(2) \cup GroupDocs(3)
           [] DocSet = "group2" -> GroupDocs(2)
+          [] DocSet = "sortdocs" -> {d \in MultiDocs(2) : \A i \in DOMAIN d.ds : ~d.ds[i].a.p_blank}
 Eligible(gs) == {i \in DOMAIN gs : (~OnlyDocumented) \/ gs[i].d}
 OneAt(gs, i) ==
   {[at |-> i, m |-> m, sp |-> "plain"] : m \in Markers}
